@@ -1544,7 +1544,7 @@ fn corpus(thorough: bool, rng: &mut Rng) -> Vec<Case> {
                     // quick tier: every (variant, kind, shape) keeps the start and end boundaries;
                     // the other boundaries are sampled
                     for c in cs {
-                        let keep = c.label.ends_with(&format!("{:?}", T(START, 0))) || c.label.ends_with(&format!("{:?}", T(END, 0))) || rng.chance(2, 5);
+                        let keep = c.label.ends_with(&format!("{:?}", T(START, 0))) || c.label.ends_with(&format!("{:?}", T(END, 0))) || rng.chance(1, 4);
                         if keep {
                             v.push(c);
                         }
@@ -1615,6 +1615,7 @@ pub fn run(a: &Args) {
     };
     let mut coq_cases = vec![];
     let mut nviol = 0;
+    let mut per_key_count: BTreeMap<String, u32> = BTreeMap::new();
     let mut instants: BTreeSet<String> = BTreeSet::new();
     let mut observations: BTreeMap<String, u64> = BTreeMap::new();
     let mut classes: BTreeMap<String, (u64, u64)> = BTreeMap::new();
@@ -1640,7 +1641,10 @@ pub fn run(a: &Args) {
                 continue;
             }
             nviol += 1;
-            if nviol <= 20 {
+            // a few replays per kind of violation, so that one frequent kind does not hide the others
+            let per_key = per_key_count.entry(key.clone()).or_insert(0u32);
+            *per_key += 1;
+            if *per_key <= 3 && rep.violations.len() < 30 {
                 // shrink: nothing after the offending op is needed
                 let mut small = c.clone();
                 small.ops.truncate(oi + 1);
